@@ -732,15 +732,27 @@ func TestVerifBanEnforceReplay(t *testing.T) {
 		}
 		paths = append(paths, p)
 	}
-	results := make([]vfePathOut, len(paths))
+	of, err := os.Create(outFn)
+	if err != nil {
+		t.Fatal(err)
+	}
+	w := bufio.NewWriter(of)
+	enc := json.NewEncoder(w)
+	var outMu sync.Mutex
+	var encErr error
 	var wg sync.WaitGroup
 	jobs := make(chan int)
-	for w := 0; w < nw; w++ {
+	for k := 0; k < nw; k++ {
 		wg.Add(1)
 		go func() {
 			defer wg.Done()
 			for i := range jobs {
-				results[i] = vfeRunPath(paths[i], scratch, seed)
+				r := vfeRunPath(paths[i], scratch, seed)
+				outMu.Lock()
+				if err := enc.Encode(&r); err != nil && encErr == nil {
+					encErr = err
+				}
+				outMu.Unlock()
 			}
 		}()
 	}
@@ -749,16 +761,8 @@ func TestVerifBanEnforceReplay(t *testing.T) {
 	}
 	close(jobs)
 	wg.Wait()
-	of, err := os.Create(outFn)
-	if err != nil {
-		t.Fatal(err)
-	}
-	w := bufio.NewWriter(of)
-	enc := json.NewEncoder(w)
-	for i := range results {
-		if err := enc.Encode(&results[i]); err != nil {
-			t.Fatal(err)
-		}
+	if encErr != nil {
+		t.Fatal(encErr)
 	}
 	w.Flush()
 	of.Close()
